@@ -392,6 +392,9 @@ def align(ctx: Ctx) -> None:
             # else-branch of `differs and <regular>`: the conjunction is false
             if is_pass and not pol and isinstance(t, ast.BoolOp) and isinstance(t.op, ast.And) and any(differs(v) and isinstance(v.ops[0], ast.NotEq) for v in t.values):
                 ok = True
+            # ... or the then-branch of `<equal> or <irregular>`
+            if is_pass and pol and isinstance(t, ast.BoolOp) and isinstance(t.op, ast.Or) and any(differs(v) and isinstance(v.ops[0], ast.Eq) for v in t.values):
+                ok = True
         if is_pass and not any(differs(f_) or (isinstance(t, ast.BoolOp) and any(differs(v) for v in t.values)) for t, pol in facts for f_, _ in conjuncts(t, pol)) and not ok:
             # pass-through that does not depend on the chunk comparison at all (e.g. the early
             # `ind is None` bookkeeping loop): not part of the alignment decision
